@@ -360,13 +360,9 @@ func (ssc *StatefulSetController) adoptOrphanRevisions(set *apps.StatefulSet) er
 		}
 	}
 	if len(orphans) > 0 {
-		for i := range orphans {
-			if shouldSyncLabels(orphans[i]) {
-				orphans[i], err = syncLabels(ssc.kubeClient, set, orphans[i])
-				if err != nil {
-					return err
-				}
-			}
+		// a StatefulSet that is being deleted adopts nothing
+		if set.DeletionTimestamp != nil {
+			return nil
 		}
 		fresh, err := ssc.pcClient.AppsV1().StatefulSets(set.Namespace).Get(context.TODO(), set.Name, metav1.GetOptions{})
 		if err != nil {
@@ -374,6 +370,17 @@ func (ssc *StatefulSetController) adoptOrphanRevisions(set *apps.StatefulSet) er
 		}
 		if fresh.UID != set.UID {
 			return fmt.Errorf("original StatefulSet %v/%v is gone: got uid %v, wanted %v", set.Namespace, set.Name, fresh.UID, set.UID)
+		}
+		if fresh.DeletionTimestamp != nil {
+			return nil
+		}
+		for i := range orphans {
+			if shouldSyncLabels(orphans[i]) {
+				orphans[i], err = syncLabels(ssc.kubeClient, set, orphans[i])
+				if err != nil {
+					return err
+				}
+			}
 		}
 		return ssc.control.AdoptOrphanRevisions(set, orphans)
 	}
